@@ -4,7 +4,7 @@ COMMON_OUT = ["inputs beyond the per-condition bounds listed under coverage.boun
 
 PROPS = {
     "C01": dict(
-        modules=["harness.c01"],
+        modules=["harness.c01", "harness.c01s"],
         level="other",
         explanation="Bounded symbolic execution of the real kmip.core read()/write() pairs (CrossHair executing "
                     "/repo's byte-code with z3 deciding every branch). Each condition is a harness whose "
@@ -18,7 +18,7 @@ PROPS = {
         assumptions=[],
     ),
     "C02": dict(
-        modules=["harness.c02"],
+        modules=["harness.c02", "harness.c02s"],
         level="other",
         explanation="Bounded symbolic execution of the real primitive writers compared with an independent reading of "
                     "KMIP 1.1 section 9.1 (kv/ttlv_ref.py: no struct, no PyKMIP import): header bytes, mandated "
@@ -238,7 +238,7 @@ PROPS = {
         assumptions=[],
     ),
     "C16": dict(
-        modules=["harness.c16"],
+        modules=["harness.c16", "harness.c16s"],
         level="other",
         explanation="Bounded symbolic execution of the real version handling: acceptance/echo with arbitrary 32-bit "
                     "major/minor through process_request; operation gating for every Operation member x version against "
